@@ -488,3 +488,65 @@ def limited(fn, seconds=10):
   finally:
     signal.alarm(0)
     signal.signal(signal.SIGALRM, old)
+
+
+def limited2(fn, seconds=10, confirm=90):
+  """For an fn that builds its own fresh engine: a timeout is only reported when a second run with a much longer
+  limit times out as well (the machine is shared; a single slow run is not non-termination)."""
+  try:
+    return limited(fn, seconds)
+  except Timeout:
+    return limited(fn, confirm)
+
+
+def run_cases_multi(ctx, name, imports, checks, cases, shard=60, timeout=600):
+  """
+  Like ctx.run_cases, but evaluates several checks over the same generated cases in one coqc run per shard
+  (elaborating the case literals is the dominant cost).  checks: [(label, coq term of type case -> bool)].
+  Returns {label: sorted failing indexes}.  Raises core.TieBroken if a shard does not compile.
+  """
+  import os
+  import re
+  import subprocess
+  out = {label: [] for label, _ in checks}
+  if not cases:
+    return out
+  jobs = []
+  for k in range(0, len(cases), shard):
+    path = os.path.join(ctx.work, 'cases_%s_%d.v' % (name, k // shard))
+    with open(path, 'w') as f:
+      f.write('From Coq Require Import ZArith List Bool String.\nImport ListNotations.\nRequire Import Grist.Lib.Cases.\n')
+      for imp in imports:
+        f.write('Require Import %s.\n' % imp)
+      f.write('Open Scope Z_scope.\n')
+      f.write('Definition the_cases := [\n  ' + ';\n  '.join(cases[k:k + shard]) + '\n].\n')
+      for label, term in checks:
+        f.write('Goal True. idtac "@@RESULT %s". exact I. Qed.\n' % label)
+        f.write('Eval vm_compute in (failing (%s) the_cases).\n' % term)
+      f.write('Goal True. idtac "@@END". exact I. Qed.\n')
+    jobs.append((k, path))
+  running, pending = [], list(jobs)
+  def start(job):
+    k, path = job
+    p = subprocess.Popen(['timeout', str(timeout), 'coqc', '-w', '-notation-overridden,-deprecated',
+                          '-Q', os.path.join(core.COQ, 'theories'), 'Grist', '-Q', os.path.join(core.COQ, 'gen'), 'GristGen',
+                          path], stdout=subprocess.PIPE, stderr=subprocess.STDOUT, cwd=ctx.work)
+    return k, path, p
+  while pending or running:
+    while pending and len(running) < 8:
+      running.append(start(pending.pop(0)))
+    k, path, p = running.pop(0)
+    text = p.communicate()[0].decode('utf8', 'replace')
+    if p.returncode != 0 or '@@END' not in text:
+      for (_k, _p, q) in running:
+        q.kill()
+      raise core.TieBroken('cases file %s does not evaluate: %s' % (os.path.basename(path), text[-1500:]))
+    for label, _ in checks:
+      part = text.split('@@RESULT %s' % label, 1)[1].split('@@', 1)[0]
+      m = re.search(r'=\s*\[(.*?)\]\s*:\s*list nat', part, re.S)
+      if not m:
+        raise core.TieBroken('cannot parse result %s of %s: %s' % (label, os.path.basename(path), part[-500:]))
+      body = m.group(1).strip()
+      if body:
+        out[label].extend(k + int(tok.strip().replace('%nat', '')) for tok in body.split(';'))
+  return {label: sorted(v) for label, v in out.items()}
